@@ -15,6 +15,17 @@ package utils
 //@   tag ghost-pure
 //@   modifies nothing
 
+// C33: acquisition. Success means: the flock is held, and after taking it the handle was
+// compared with the file at the lock path (a lock on an unlinked inode does not count);
+// failure leaves no flock behind; acquisition never unlinks the LOCK file (it may belong
+// to the current owner).
+//@ func AcquireDirLock
+//@   property C33
+//@   requires [not-already-held] !flockHeld && !lockFileVerified
+//@   ensures [locked-and-verified-on-success] result1 == nil ==> result != nil && flockHeld && lockFileVerified
+//@   ensures [not-held-on-failure] result1 != nil ==> !flockHeld && result == nil
+//@   ensures [never-unlinks] !old(unlinkedWhileUnlocked) ==> !unlinkedWhileUnlocked
+
 // C33: the LOCK file is unlinked only while the flock is still held.
 //@ func (*DirLock).Release
 //@   property C33
